@@ -1183,13 +1183,35 @@ func (g *evGen) exitOrCtlKind(t, d, kind int) string {
 		if g.r.Chance(50) {
 			parts = append(parts, fmt.Sprintf("(vtr (vopen %s))", sv))
 		}
+		// the state of the stream when the body is left is a dimension of its own: still open, closed by the
+		// body (before or between its forms; twice: closing a closed stream is a no-op), opened as a probe
+		opts := ""
+		switch k := g.r.Intn(100); {
+		case k < 25:
+			opts = " :direction :input"
+		case k < 40:
+			opts = " :direction :probe"
+		}
+		closeForm := fmt.Sprintf("(vtr (close %s))", sv)
+		if g.r.Chance(35) {
+			parts = append(parts, closeForm)
+		}
+		if g.r.Chance(30) {
+			parts = append(parts, g.sub("with-open-file.body", func() string { return g.stmt(d - 1) }))
+			if g.r.Chance(60) {
+				parts = append(parts, closeForm)
+				if g.r.Chance(40) {
+					parts = append(parts, fmt.Sprintf("(vtr (vopen %s))", sv))
+				}
+			}
+		}
+		if g.r.Chance(25) {
+			// an error (of one of the classes) after whatever was done to the stream
+			parts = append(parts, g.sub("with-open-file.body", func() string { return g.exitOrCtlKind(tI, d-1, 3) }))
+		}
 		parts = append(parts, g.seq("with-open-file", t, d, 2))
 		restore2()
 		restore()
-		opts := ""
-		if g.r.Chance(30) {
-			opts = " :direction :input"
-		}
 		return fmt.Sprintf("(let ((%s nil)) (unwind-protect (with-open-file (%s \"/dev/null\"%s) (setq %s %s) %s) (vtr (vopen %s))))",
 			h, sv, opts, h, sv, strings.Join(parts, " "), h)
 	}
